@@ -209,6 +209,26 @@ func runC02(c *Ctx) {
 			}
 		}
 	}
+	// non-ASCII look-alikes: only ASCII case folding is a documented normalisation, so a string in which a
+	// letter is replaced by a code point that Unicode case mapping folds onto it (KELVIN SIGN -> k,
+	// LATIN CAPITAL I WITH DOT, long s, fullwidth letters) is a different string and must be rejected
+	for k := 0; k < c.Pick(120, 1200); k++ {
+		net := 1 + k%len(nets)
+		n := nets[net-1]
+		ver := []byte{0, 8}[k%2]
+		body := refCashString(n.CashAddressPrefix, refTo5(append([]byte{ver}, randBytes(r, 20)...), 0))
+		for _, sub := range [][2]string{{"k", "\u212a"}, {"K", "\u212a"}, {"s", "\u017f"}, {"i", "\u0130"}, {"q", "\uff51"}, {"p", "\u1e57"}} {
+			if i := strings.Index(body, sub[0]); i >= 0 {
+				t := body[:i] + sub[1] + body[i+1:]
+				decode(c, t, net)
+				decode(c, strings.ToUpper(body[:i])+sub[1]+strings.ToUpper(body[i+1:]), net)
+				decode(c, n.CashAddressPrefix+":"+t, net)
+			}
+		}
+		if i := strings.Index(n.CashAddressPrefix, "s"); i >= 0 { // inside the prefix
+			decode(c, n.CashAddressPrefix[:i]+"\u017f"+n.CashAddressPrefix[i+1:]+":"+body, net)
+		}
+	}
 	// an extra symbol / a missing symbol with a valid checksum (wrong payload length in symbols)
 	for k := 0; k < c.Pick(60, 600); k++ {
 		ver := []byte{0, 8, 0x0b}[k%3]
